@@ -23,6 +23,29 @@ pub struct PutQuery {
     extra_nodes: Box<[Node]>,
 }
 
+#[cfg(mainline_verif)]
+impl PutQuery {
+    pub(crate) fn verif_snapshot(&self) -> crate::verif::PutQuerySnap {
+        crate::verif::PutQuerySnap {
+            target: *self.target.as_bytes(),
+            kind: match self.request {
+                PutRequestSpecific::AnnouncePeer(_) => 0,
+                PutRequestSpecific::AnnounceSignedPeer(_) => 1,
+                PutRequestSpecific::PutImmutable(_) => 2,
+                PutRequestSpecific::PutMutable(_) => 3,
+            },
+            inflight_tids: self.inflight_requests.clone(),
+            stored_at: self.stored_at as u64,
+            errors: self
+                .errors
+                .iter()
+                .map(|(count, e)| (*count as u64, e.code))
+                .collect(),
+            extra_nodes: self.extra_nodes.len(),
+        }
+    }
+}
+
 impl PutQuery {
     pub fn new(request: PutRequestSpecific, extra_nodes: Option<Box<[Node]>>) -> Self {
         Self {
